@@ -231,10 +231,10 @@ class LocalDirectoryContext(Context):
         with self._write_lock(log_path):
             with open(log_path, 'a') as fh:
 
-                def mangle_message(message):
-                    return '"' + message.replace('"', '""') + '"'
+                def mangle(field):
+                    return '"' + field.replace('"', '""') + '"'
 
-                fh.write(f'{ctxpath},{date},{severity},{mangle_message(message)}\n')
+                fh.write(f'{mangle(ctxpath)},{date},{severity},{mangle(message)}\n')
 
     def retrieve_log(self, level: Literal['all', 'current', 'lower'] = 'all') -> pd.DataFrame:
         log_path = self._log_path
